@@ -266,6 +266,8 @@ pub struct Opts {
     pub horizon: u64,
     /// record every atomic op in the log (for replays / samples)
     pub log_ops: bool,
+    /// record the atomic ops executed inside signal handler frames
+    pub log_handler_ops: bool,
 }
 
 pub trait Monitor {
@@ -291,6 +293,7 @@ pub struct Exec {
     mutex_clock: HashMap<usize, VClock>,
     pub spurious_used: u32,
     pub forced_reruns: u32,
+    pub diverged: u32,
     pub last_forced: usize,
     pub panics: Vec<(usize, String)>,
     pub monitor: Option<Box<dyn Monitor>>,
@@ -404,6 +407,7 @@ impl Exec {
             mutex_clock: HashMap::new(),
             spurious_used: 0,
             forced_reruns: 0,
+            diverged: 0,
             last_forced: NONE,
             panics: Vec::new(),
             monitor: None,
@@ -436,15 +440,14 @@ impl Exec {
         let c = if self.pos < self.replay.len() {
             let c = self.replay[self.pos] as usize;
             if c >= alts.len() {
-                eprintln!(
-                    "ENGINE ERROR: replay divergence at decision {}: choice {} of {} alternatives",
-                    self.pos,
-                    c,
-                    alts.len()
-                );
-                unsafe { libc::_exit(2) }
+                // The program behaved differently under the same schedule prefix (state that
+                // survives from one execution to the next, or real nondeterminism). Counted and
+                // reported; the execution continues on the default alternative.
+                self.diverged += 1;
+                0
+            } else {
+                c
             }
-            c
         } else {
             0
         };
@@ -1049,7 +1052,7 @@ fn hook_post(op: &shim::Op, real: u64, ok: bool) -> u64 {
         vc_join(&mut e.threads[t].clock, &j);
     }
     e.tick(t);
-    if e.opts.log_ops {
+    if e.opts.log_ops || (e.opts.log_handler_ops && handler_depth() > 0) {
         let tag = match op.kind {
             shim::OP_LOAD => "op_load",
             shim::OP_STORE => "op_store",
@@ -1063,7 +1066,7 @@ fn hook_post(op: &shim::Op, real: u64, ok: bool) -> u64 {
             }
             _ => "op_rmw",
         };
-        e.push_ev(tag, op.line as u64, ret);
+        e.push_ev(tag, op.addr as u64, ((op.line as u64) << 32) | (ret & 0xffff_ffff));
     }
     if !ok {
         e.threads[t].cas_fails += 1;
@@ -1279,6 +1282,11 @@ pub fn raise_value(sig: i32, value: usize) {
     do_raise_with(t, sig, Some(value));
 }
 
+/// Block until `fd` is readable (level-triggered readiness, e.g. an armed waker of an event loop).
+pub fn wait_readable(fd: i32) {
+    hook_blocking_read(fd);
+}
+
 /// Block until no other thread can move (lowest-priority thread, e.g. the closer).
 pub fn await_quiescence() {
     let t = tid();
@@ -1334,6 +1342,7 @@ pub struct Outcome {
     pub log: Vec<Ev>,
     pub kinds: Vec<Vec<AltKind>>,
     pub violation: Option<String>,
+    pub diverged: u32,
 }
 
 fn block_signals(sigs: &[i32], how: i32) {
@@ -1573,6 +1582,7 @@ pub fn run_one<S: Sync + Send + 'static>(sc: &Scenario<S>, choices: &[u32], keep
         stale: e.stale_taken,
         log: if keep_log || e.violation.is_some() { std::mem::take(&mut e.log) } else { vec![] },
         violation: e.violation.take(),
+        diverged: e.diverged,
     };
     unsafe {
         EXEC = std::ptr::null_mut();
